@@ -498,6 +498,13 @@ func (s *transactionStore) Watch(ctx context.Context, ch chan<- configapi.Transa
 	s.mu.Unlock()
 
 	go func() {
+		// Whatever way this goroutine ends, keep draining the events the store may still be sending to it
+		defer func() {
+			go func() {
+				for range eventCh {
+				}
+			}()
+		}()
 		defer func() {
 			s.mu.Lock()
 			if options.TransactionID.Index > 0 {
@@ -537,9 +544,13 @@ func (s *transactionStore) Watch(ctx context.Context, ch chan<- configapi.Transa
 					if ctx.Err() != nil {
 						return
 					}
-					ch <- configapi.TransactionEvent{
+					select {
+					case ch <- configapi.TransactionEvent{
 						Type:        configapi.TransactionEvent_REPLAYED,
 						Transaction: *transaction,
+					}:
+					case <-ctx.Done():
+						return
 					}
 				}
 			} else {
@@ -583,9 +594,13 @@ func (s *transactionStore) Watch(ctx context.Context, ch chan<- configapi.Transa
 						transaction := entry.Value
 						transaction.Version = uint64(entry.Version)
 						transaction.ID.Index = configapi.Index(entry.Index)
-						ch <- configapi.TransactionEvent{
+						select {
+						case ch <- configapi.TransactionEvent{
 							Type:        configapi.TransactionEvent_REPLAYED,
 							Transaction: *transaction,
+						}:
+						case <-ctx.Done():
+							return
 						}
 					}
 				}
@@ -595,12 +610,14 @@ func (s *transactionStore) Watch(ctx context.Context, ch chan<- configapi.Transa
 		for {
 			select {
 			case event := <-eventCh:
-				ch <- event
+				// Do not block on a consumer that has gone away: that would stall the delivery of events
+				// to every other watcher of the store.
+				select {
+				case ch <- event:
+				case <-ctx.Done():
+					return
+				}
 			case <-ctx.Done():
-				go func() {
-					for range eventCh {
-					}
-				}()
 				return
 			}
 		}
